@@ -5,7 +5,7 @@ from . import contrib as CB, convert as CV
 from .c08 import keyword_paths, ok_value
 
 LEVEL = "other"
-TECHNIQUE = "FDAI tables: keyword table of TryFrom<Token> for NumericValue<T> (literal -> variant through mnemonic_compare, everything else to T::try_from), decision table of NumericBuilder::finish over the six variants with the inclusive NaN-safe guard form (t <= max and t >= min in positive form dominate Ok(t)), plumbing of finish_with/max/min/default, type defaults of integers, floats and unit quantities by evaluation; construction routes: builders obtained from the real constructors and setters in every order, then finish()"
+TECHNIQUE = "FDAI tables: keyword table of TryFrom<Token> for NumericValue<T> (literal -> variant through mnemonic_compare, everything else to T::try_from), decision table of NumericBuilder::finish over the six variants with the inclusive NaN-safe guard form (t <= max and t >= min in positive form dominate Ok(t)), plumbing of finish_with/max/min/default, type defaults of integers, floats and unit quantities by evaluation; construction routes: builders obtained from the real constructors and setters in every order, then finish(); typed echo tables (sa/rules/echotable.py, witness/echo): `Node::run` folded end to end on messages to a witness command that pulls one parameter of the type (`next_data::<T>()` / `next_optional_data`) and writes it back - lexer, dispatcher, Parameters, the conversion, the ResponseData writer and the formatter analysed in place, lexical-core's parsers / integer writer by contract - the answer compared with a reference written from the property's statement: a u8 numeric_value resolved against 10..100 with default 50 and an i16 one against -1000..1000 without default: the five keywords in short and long form, look-alikes, values at and beyond the bounds, conversion errors"
 LEVEL_TEXT = "The resolution function is enumerated over all six NumericValue variants with symbolic bounds: MAXimum/MINimum return the configured bounds, DEFault the configured default or -224, UP/DOWN -224, and a plain value is returned only on the path where both `t <= max` and `t >= min` were answered true by PartialOrd (positive form, so NaN - for which both are false - can never pass), -222 otherwise. Keyword recognition and builder plumbing are tabulated the same way."
 LEVEL_NOTE = "Not decided: PartialOrd impls of user types; the underlying numeric conversions (C07/C08/C18). Trusted: rustc MIR, FDAI models."
 
